@@ -1357,6 +1357,12 @@ class Walker:
                 bb = t['ret']
                 continue
             if k == 'assert':
+                if (t.get('msg') or '').startswith('BoundsCheck'):
+                    # built-in slice/array indexing: `assert Lt(index, len)`; recorded so that rules can take it as an index site
+                    try:
+                        path.events.append(('assert', bb, self.as_value(env, self.operand(env, t['cond'])), t.get('expected'), 'BoundsCheck'))
+                    except Exception:
+                        path.events.append(('assert', bb, None, t.get('expected'), 'BoundsCheck'))
                 bb = t['ok']
                 continue
             if k == 'return':
